@@ -65,17 +65,36 @@ def data_model(ex, st, callee, args, ty):
     raise Unsupported("data() on " + repr(tgt))
 
 
+def strip_last_generics(c):
+    """`a::b::<X<Y>>` -> `a::b` (only the trailing turbofish)."""
+    if not c.endswith(">"):
+        return c
+    depth = 0
+    i = len(c) - 1
+    while i >= 0:
+        ch = c[i]
+        if ch == ">" and (i == 0 or c[i - 1] not in "-="):
+            depth += 1
+        elif ch == "<":
+            depth -= 1
+            if depth == 0:
+                break
+        i -= 1
+    if i >= 2 and c[i - 2:i] == "::":
+        return c[:i - 2]
+    return c
+
+
 class ExecB(mirsmt.Exec):
     def call(self, st, callee, args, dest_ty, depth):
         for (rx, handler) in self.models:
             if re.search(rx, callee):
                 return handler(self, st, callee, args, dest_ty)
-        name = self.resolve(callee)
+        name, args = self.resolve_call(callee, args)
         if name is not None and depth < 5:
-            outs = []
-            for o in self.run(name, st.fork(), args, depth + 1):
-                outs.append((o.state, o.value, o.kind, o.msg))
-            return outs
+            # the callee runs on the caller's own state object (each path owns its state), so that
+            # writes through reference arguments stay visible
+            return [(o.state, o.value, o.kind, o.msg) for o in self.run(name, st, args, depth + 1)]
         s_ret = st.fork()
         s_ret.events.append(("call", callee))
         val = mirsmt.fresh_of_type(dest_ty, st.sym, "h")
@@ -83,10 +102,28 @@ class ExecB(mirsmt.Exec):
         s_unw.events.append(("call", callee))
         return [(s_ret, val, "return", ""), (s_unw, None, "unwind", "callee " + callee)]
 
+    def resolve_call(self, callee, args):
+        """-> (function name in the dump or None, argument list)"""
+        m = re.match(r"<\{closure@([^}]+)\} as Fn(?:Mut|Once)?<", callee)
+        if m:
+            for name, f in self.fns.items():
+                if "{closure#" in name and f.args and m.group(1) in f.args[0][1]:
+                    tup = args[1] if len(args) > 1 else Tup([])
+                    return name, [args[0]] + (list(tup.fs) if isinstance(tup, Tup) else [tup])
+            return None, args
+        return self.resolve(callee), args
+
     def resolve(self, callee):
-        c = re.sub(r"::<[^()]*>$", "", callee)
+        c = strip_last_generics(callee)
         if c in self.fns:
             return c
+        m = re.fullmatch(r"(\w+)::(\w+)::<T>::(\w+)", c)
+        if m:
+            # inherent method of a crate type, e.g. toodee::TooDee::<T>::insert_row
+            mod, ty, meth = m.group(1), m.group(2), m.group(3)
+            for name, f in self.fns.items():
+                if name.startswith(mod + "::<impl at") and name.endswith("::" + meth) and f.args and re.search(r"\b" + ty + r"<", f.args[0][1]):
+                    return name
         m = re.fullmatch(r"<(.+) as (.+?)>::(\w+)", c)
         if m:
             ty, tr, meth = m.group(1), m.group(2), m.group(3)
@@ -249,6 +286,16 @@ def parse_model(out, inputs):
     return vals
 
 
+# property -> (exit classes checked, method filter)
+STATE_PROPS = {
+    "C01": ({"panic", "return"}, None),
+    "C06": ({"panic"}, r"^(insert|push)_(row|col)$"),
+    "C07": ({"panic"}, r"^remove_(row|col)$"),
+    "C11": ({"caller"}, None),
+    "C12": ({"return"}, r"^remove_(row|col)$"),
+}
+
+
 def witness_to_replay(k, wit):
     """Map a kernel's witness (dict of input name -> int) to (native harness name, [usize draws])."""
     r = k.replay
@@ -281,7 +328,7 @@ def run_property(prop, tier="quick"):
     fields = kernels.struct_fields("/repo/src")
     ks = [k for k in kernels.all_kernels() if k.prop == prop or (prop == "C02" and k.prop == "C09" and k.kid.startswith("col"))]
     results = []
-    if not ks:
+    if not ks and prop not in STATE_PROPS:
         return results, {"kernels": 0}
     mir = {True: dump_mir(False), False: dump_mir(True)}  # key: wrapping?
     fns = {w: mirsmt.parse_mir(t) for w, t in mir.items()}
@@ -291,6 +338,21 @@ def run_property(prop, tier="quick"):
             for s_ in r["sat"]:
                 s_["replay"] = witness_to_replay(k, s_["witness"])
             results.append(r)
+    if prop in STATE_PROPS:
+        want, only = STATE_PROPS[prop]
+        for wrapping in (False, True):
+            for r in run_state_kernels(fns[wrapping], wrapping, fields, want):
+                meth = r["kernel"][len("state_"):]
+                if only and not re.search(only, meth):
+                    continue
+                # a live drain at return is C12's business, not C01's
+                if prop == "C01" and meth in ("remove_row", "remove_col"):
+                    r["sat"] = [x for x in r["sat"] if x["path_kind"] != "return"]
+                if prop == "C12":
+                    r["sat"] = [x for x in r["sat"] if x["path_kind"] == "return"]
+                if r["not_decided"]:
+                    r.setdefault("notes", []).append("not decided: " + r["not_decided"])
+                results.append(r)
     summary = {
         "kernels": len(ks), "runs": len(results), "paths": sum(r["paths"] for r in results), "queries": sum(r["queries"] for r in results),
         "unsat": sum(r["unsat"] for r in results), "sat": sum(len(r["sat"]) for r in results),
@@ -307,3 +369,197 @@ if __name__ == "__main__":
         for s in r["sat"]:
             print("    SAT", s["function"], s["path_kind"], s["witness"], s["solvers"])
     print(summ)
+
+
+# ============================================================================================
+# State kernels: the shape invariant at every exit of the `&mut TooDee` methods
+#   - internal panic edges (rejected calls)              -> C01 / C06 / C07
+#   - unwind edges out of caller-supplied code / reserve -> C11
+#   - normal return (incl. "a drain is alive": the state a leak freezes) -> C01 / C12
+# Loops are cut at their back edge: the claim covers every exit reachable before the first
+# loop iteration completes (this includes the first call into the caller's iterator).
+
+CALLER_CODE = r"^<I as |^<Rev<I> as |^<T as (Clone|Default)>::|^<F as Fn|^<impl IntoIterator.* as IntoIterator>::into_iter|^<B as "
+NO_UNWIND = (r"Vec::<.*>::(as_mut_ptr|as_ptr|capacity)$|ptr::(mut_ptr|const_ptr)::<impl \*(mut|const) T>::(add|sub|offset|cast)|^core::ptr::(copy|copy_nonoverlapping|write|read|swap|swap_nonoverlapping)::|"
+             r"NonNull::<.*>::(from|new_unchecked|as_mut|as_ref|as_ptr)|from_raw_parts(_mut)?::|^Arguments::<'_>::|Iterator::rev$|^<NonNull<.*> as From<.*>>::from$|^core::iter::Iterator::rev")
+
+
+def st_models(fields):
+    from mirsmt import val_of, FieldRef, m_ret
+
+    def caller_code(ex, st, callee, args, ty):
+        s1 = st.fork()
+        s1.events.append(("caller", callee))
+        val = mirsmt.fresh_of_type(ty, st.sym, "cc")
+        s2 = st.fork()
+        s2.events.append(("caller", callee))
+        return [(s1, val, "return", ""), (s2, None, "unwind", "caller code " + callee)]
+
+    def no_unwind(ex, st, callee, args, ty):
+        return m_ret(st, mirsmt.fresh_of_type(ty, st.sym, "nu"))
+
+    def set_len(ex, st, callee, args, ty):
+        r, n = args
+        cur = val_of(r)
+        new = Slice(cur.buf, cur.off, n.t)
+        if isinstance(r, FieldRef):
+            r.tup.fs[r.idx] = new
+        elif isinstance(r, Ref):
+            r.cell.v = new
+        else:
+            raise Unsupported("set_len on a value")
+        return m_ret(st, Tup([]))
+
+    def clear(ex, st, callee, args, ty):
+        r = args[0]
+        cur = val_of(r)
+        new = Slice(cur.buf, cur.off, "0")
+        if isinstance(r, FieldRef):
+            r.tup.fs[r.idx] = new
+        else:
+            r.cell.v = new
+        return m_ret(st, Tup([]))
+
+    def reserve(ex, st, callee, args, ty):
+        cur = val_of(args[0])
+        n = args[1].t
+        s1 = st.fork()
+        s1.pc.append(f"(<= (+ {cur.len} {n}) {kernels.ISIZE_MAX})")
+        s2 = st.fork()
+        s2.pc.append(f"(> (+ {cur.len} {n}) {kernels.ISIZE_MAX})")
+        s2.events.append(("caller", "capacity overflow in " + callee))
+        return [(s1, Tup([]), "return", ""), (s2, None, "unwind", "capacity overflow in reserve")]
+
+    def drain(ex, st, callee, args, ty):
+        r, rng = args
+        cur = val_of(r)
+        a, b = rng.fs[0].t, rng.fs[1].t
+        ok = f"(and (<= {a} {b}) (<= {b} {cur.len}))"
+        s1 = st.fork()
+        s1.pc.append(ok)
+        r1 = mirsmt.copy_val(r, {})  # placeholder; the real update happens on s1's copy below
+        s2 = st.fork()
+        s2.pc.append(f"(not {ok})")
+        s2.events.append(("panic", "drain range out of bounds"))
+        # update the vec length in s1: locate the same FieldRef in the forked state via roots
+        recv = s1.roots.get("self")
+        tup = recv.cell.v
+        for i, f in enumerate(tup.fs):
+            if isinstance(f, Slice):
+                tup.fs[i] = Slice(f.buf, f.off, a)
+        return [(s1, Opaque("drain"), "return", ""), (s2, None, "panic", "drain range out of bounds")]
+
+    def mem_swap(ex, st, callee, args, ty):
+        a, b = args
+        va, vb = val_of(a), val_of(b)
+        for r, v in ((a, vb), (b, va)):
+            if isinstance(r, FieldRef):
+                r.tup.fs[r.idx] = v
+            elif isinstance(r, Ref):
+                r.cell.v = v
+            else:
+                raise Unsupported("mem::swap on values")
+        return m_ret(st, Tup([]))
+
+    def shrink(ex, st, callee, args, ty):
+        return m_ret(st, Tup([]))
+
+    return [
+        (CALLER_CODE, caller_code),
+        (r"Vec::<.*>::set_len$", set_len),
+        (r"Vec::<.*>::clear$", clear),
+        (r"Vec::<.*>::(reserve|reserve_exact)$", reserve),
+        (r"Vec::<.*>::shrink_to_fit$", shrink),
+        (r"Vec::<.*>::drain::<", drain),
+        (r"^core::mem::swap::<", mem_swap),
+        (r"Vec::<.*>::fill$|slice::<impl \[.*\]>::fill$", caller_code),
+        (NO_UNWIND, no_unwind),
+    ]
+
+
+class ExecS(ExecB):
+    cut_loops = True
+
+    def call(self, st, callee, args, dest_ty, depth):
+        for (rx, handler) in self.models:
+            if re.search(rx, callee):
+                return handler(self, st, callee, args, dest_ty)
+        name, args = self.resolve_call(callee, args)
+        if name is not None and depth < 5:
+            return [(o.state, o.value, o.kind, o.msg) for o in self.run(name, st, args, depth + 1)]
+        # unknown callee: assumed to return (never a false alarm; a panic inside it is outside the claim)
+        s_ret = st.fork()
+        s_ret.events.append(("call", callee))
+        self.unknown.add(callee)
+        return [(s_ret, mirsmt.fresh_of_type(dest_ty, st.sym, "h"), "return", "")]
+
+
+STATE_TWINS = {"insert_row": 0, "push_row": 0, "insert_col": 1, "push_col": 1, "remove_row": 2, "remove_col": 3}
+
+
+def run_state_kernels(fns, wrapping, fields, want):
+    """want: set of outcome classes to check: 'panic', 'caller', 'return'."""
+    out = []
+    for name, f in fns.items():
+        if not f.args or not re.match(r"^&mut toodee::TooDee<T>$", f.args[0][1]):
+            continue
+        meth = name.split("::")[-1]
+        if "{closure" in name or meth in ("index_mut", "data_mut", "as_mut", "rows_mut", "col_mut", "view_mut", "get_unchecked_mut", "get_unchecked_row_mut", "into_iter", "pop_row", "pop_col"):
+            continue
+        res = {"kernel": "state_" + meth, "function": name, "semantics": "wrapping (overflow-checks=off)" if wrapping else "checked (overflow-checks=on)",
+               "what": f"{meth}: the shape invariant holds at every exit ({'/'.join(sorted(want))})", "paths": 0, "queries": 0, "unsat": 0, "sat": [],
+               "inconclusive": [], "not_decided": None, "solver_s": 0.0, "exits": {"panic": 0, "caller": 0, "return": 0, "cut": 0}, "unknown_callees": []}
+        sym = mirsmt.Sym()
+        ctx = kernels.Ctx(sym, fields)
+        recv, d = kernels.owned(ctx)
+        args = [recv]
+        for (l, ty) in f.args[1:]:
+            if ty == "usize":
+                args.append(Int(ctx.int("arg" + l)))
+            elif ty == "(usize, usize)":
+                args.append(Tup([Int(ctx.int("arg" + l + "a")), Int(ctx.int("arg" + l + "b"))]))
+            else:
+                args.append(Opaque(ty))
+        try:
+            ex = ExecS(fns, wrapping, st_models(fields) + [(r"::(num_cols|num_rows|stride)$", getter_model(fields)), (r"::data(_mut)?$", data_model)] + mirsmt.STD_MODELS)
+            ex.unknown = set()
+            st = mirsmt.State(sym, wrapping)
+            st.roots = {"self": recv}
+            outcomes = ex.run(name, st, args)
+            res["unknown_callees"] = sorted(ex.unknown)[:12]
+        except Unsupported as e:
+            res["not_decided"] = str(e)[:200]
+            out.append(res)
+            continue
+        order = fields["TooDee"]
+        for o in outcomes:
+            res["paths"] += 1
+            cls = "cut" if o.kind == "cut" else ("return" if o.kind == "return" else ("caller" if any(e[0] == "caller" for e in o.state.events[-1:]) else "panic"))
+            res["exits"][cls] += 1
+            if cls == "cut" or cls not in want:
+                continue
+            tup = o.state.roots["self"].cell.v
+            C = tup.fs[order.index("num_cols")].t
+            R = tup.fs[order.index("num_rows")].t
+            L = tup.fs[order.index("data")].len
+            inv = f"(and (= (* {C} {R}) {L}) (= (= {C} 0) (= {R} 0)))"
+            base = ctx.assume + o.state.pc + [f"(not {inv})"]
+            names_in = list(ctx.inputs.values())
+            verdict, verdicts, dt, model = mirsmt.decide(mirsmt.smt_script(sym, base), mirsmt.smt_script(sym, base, get_model=names_in))
+            res["queries"] += 1
+            res["solver_s"] += dt
+            if verdict in ("unsat", "unsat1"):
+                res["unsat"] += 1
+            elif verdict == "sat":
+                small = [f"(<= {t} 8)" for n, t in ctx.inputs.items() if n in ("cols", "rows", "len")]
+                rs, outm = mirsmt.solve(mirsmt.smt_script(sym, base + small, get_model=names_in), "z3")
+                wit = parse_model(outm if rs == "sat" else model, ctx.inputs)
+                rep = None
+                if meth in STATE_TWINS:
+                    rep = (f"b_state_{STATE_TWINS[meth]}", [wit.get("cols", 0), wit.get("rows", 0), wit.get("arg_2", 0)])
+                res["sat"].append({"function": name, "path_kind": cls, "msg": o.msg or (o.state.events[-1][1] if o.state.events else ""), "witness": wit,
+                                   "post_state": {"num_cols": C[:80], "num_rows": R[:80], "len": L[:80]}, "solvers": verdicts, "replay": rep})
+            else:
+                res["inconclusive"].append(f"{name}: solver verdicts {verdicts} on a {cls} exit")
+        out.append(res)
+    return out
